@@ -216,6 +216,8 @@ func defaultArgs(fn *ssa.Function) []Val {
 			args[i] = Val{K: KPtr, S: fmt.Sprintf("p%d", i)}
 		case *types.Slice:
 			args[i] = Val{K: KSlice, S: fmt.Sprintf("p%d", i), Len: -1}
+		case *types.Map:
+			args[i] = Val{K: KPtr, S: fmt.Sprintf("p%d", i)}
 		default:
 			args[i] = top
 		}
